@@ -109,6 +109,14 @@ def create_machine(
         >>> # FIX: Renamed variable to avoid "Redeclared 'machine'..." warning.
         >>> machine_from_provider = create_machine(my_config, logic_providers=[provider])
     """
+    # 🧱 Everything below reads the config as a mapping; say so up front
+    #    instead of failing with a raw AttributeError on `.get`.
+    if not isinstance(config, dict):
+        raise InvalidConfigError(
+            "Machine configuration must be a dictionary, got "
+            f"'{type(config).__name__}'."
+        )
+
     # -------------------------------------------------------------------------
     # ☝️ Step 1: Determine the Source of Business Logic
     # -------------------------------------------------------------------------
